@@ -155,6 +155,9 @@ def main():
                     h.setsockopt(socket.SOL_SOCKET, socket.SO_SNDBUF, sc["sndbuf"])
                 if sc.get("rcvbuf"):
                     h.setsockopt(socket.SOL_SOCKET, socket.SO_RCVBUF, sc["rcvbuf"])
+                if sc.get("peer_noread") and self.side != sc["closer"]:
+                    self.paused = True              # a peer that does not read until the closer has been told of the loss
+                    self.transport.pauseProducing()
                 reactor.callLater(0, self.step)
 
             # ---- writing
@@ -195,6 +198,13 @@ def main():
                             self.close("lose")
                     elif sc["kind"] == "half":
                         self.close("half")
+                        # loseWriteConnection() immediately followed by loseConnection(), before anything was flushed
+                        if sc.get("half_then_lose") and not self.lostn and self.nothing_to_wait_for():
+                            self.close("lose")
+                    elif sc.get("lose_then_abort"):
+                        # orderly close requested while the peer does not read, then abortConnection()
+                        self.close("lose")
+                        reactor.callLater(sc.get("abort_delay_ms", 20) / 1000.0, self.do_abort)
                     else:
                         d = sc.get("abort_delay_ms", 0)
                         if d:
@@ -261,6 +271,9 @@ def main():
             def connectionLost(self, reason):
                 self.lostn += 1
                 ev.append({"e": "lost", "s": self.side, "why": reason.type.__name__})
+                other = sides.get(3 - self.side)
+                if sc.get("peer_noread") and other is not None and other.paused and not other.lostn:
+                    other.resume()
                 check_end()
 
         class Plain1(Side):
